@@ -8,6 +8,14 @@ Import ListNotations.
 Open Scope R_scope.
 """
 
+HDR_G = """From Coq Require Import ZArith List Bool PrimFloat.
+From FT.lib Require Import Num Arr ArrLemmas Lower NumArr.
+From FT.gen Require Import Common Fteik2d Fteik3d.
+{imports}
+Import ListNotations.
+Open Scope Z_scope.
+"""
+
 SPEC = {
     "C14": {
         "title": "Grid evaluation is multilinear interpolation on the node axes (model: gen/Interp2d.v, gen/Interp3d.v)",
@@ -204,6 +212,66 @@ Open Scope Z_scope.
             ("column_upper_bound_down", "LayeredR.column_upper_bound_down", "converged solution: going down a column from any row, the time grows by at most dz * (smallest slowness of the cells adjoining each edge crossed)"),
             ("column_upper_bound_up", "LayeredR.column_upper_bound_up", "and going up"),
             ("layered_grid_line_upper", "LayeredR.layered_grid_line_upper", "layered model, node source: the time n rows below the source is at most the cumulative sum of slowness x spacing over the cell rows between them - cell row c lies between node rows c and c+1"),
+        ],
+        "examples": [],
+    },
+    "C11": {
+        "title": "Gradient field: unit vectors that do not perturb the traveltimes (model: gen/Fteik2d.v, gen/Fteik3d.v, gen/Common.v)",
+        "header": HDR_R.format(imports="From FT.proofs Require Import Sweep2dProofs Sweep3dProofs GradR Solve2dProofs Solve3dProofs."),
+        "theorems": [
+            ("sweep_tt_independent_of_grad", "Sweep2dProofs.sweep_tt_indep", "one node update: the traveltime written does not depend on the gradient flag nor on the sign array (every numeric instance: bit for bit)"),
+            ("sweep2d_tt_independent_of_grad", "Sweep2dProofs.sweep2d_tt_indep", "a whole 2D pass"),
+            ("sweep3d_tt_independent_of_grad", "Sweep3dProofs.sweep3d_tt_indep", "a whole 3D pass"),
+            ("solve2d_tt_independent_of_grad", "Solve2dProofs.fteik2d_tt_indep_of_grad", "the whole 2D solver (source initialisation, sweeps, assembly): traveltime grid and source-cell slowness with return_gradient=True equal those without, in the source semantics (the compiled 3D build deviates by a few ulp: known finding F6)"),
+            ("solve3d_tt_independent_of_grad", "Solve3dProofs.fteik3d_tt_indep_of_grad", "the whole 3D solver"),
+            ("normalised_has_unit_norm_2d", "GradR.norm2d_normalised", "exact arithmetic: g / |g| has norm 1 (the assembly divides when |g| > 0)"),
+            ("normalised_has_unit_norm_3d", "GradR.norm3d_normalised", "3D"),
+            ("norm_zero_only_for_zero_vector", "GradR.norm2d_zero_iff", "the test |g| > 0 fails only for the zero vector"),
+        ],
+        "examples": [],
+    },
+    "C07": {
+        "title": "More sweeps never increase a time and sweeping converges (model: gen/Fteik2d.v, gen/Fteik3d.v)",
+        "header": HDR_G.format(imports="From FT.proofs Require Import NumFLaws Sweep2dProofs Sweep3dProofs FloatInstances Solve2dProofs Solve3dProofs."),
+        "theorems": [
+            ("sweep2d_lowers", "Sweep2dProofs.sweep2d_lowers", "one full 2D pass keeps the grid well formed and lowers every node or leaves it (le_or_same x y := x = y or x < y): every shape, every numeric instance with the two order laws"),
+            ("sweep3d_lowers", "Sweep3dProofs.sweep3d_lowers", "3D"),
+            ("binary64_order_laws", "NumFLaws.NumLawsF", "binary64 (all floats: NaN, infinities, signed zeros) satisfies the order laws, so the above hold bit for bit"),
+            ("sweep2d_lowers_binary64", "FloatInstances.sweep2d_lowers_binary64", "the instance at binary64, spelled out"),
+            ("sweep3d_lowers_binary64", "FloatInstances.sweep3d_lowers_binary64", "3D"),
+            ("nsweep_is_an_iteration_count_2d", "Solve2dProofs.fteik2d_nsweep_iter", "the solver returns the nsweep-th iterate of one pass function started from an initial state that does not depend on nsweep: nsweep influences the result only as an iteration count"),
+            ("nsweep_is_an_iteration_count_3d", "Solve3dProofs.fteik3d_nsweep_iter", "3D"),
+            ("monotone_in_nsweep_2d", "Solve2dProofs.fteik2d_monotone_in_nsweep_le", "the traveltime at every node is non-increasing in nsweep (n <= m), bit for bit, for every instance with the order laws"),
+            ("monotone_in_nsweep_3d", "Solve3dProofs.fteik3d_monotone_in_nsweep_le", "3D"),
+            ("fixed_point_stays_2d", "Solve2dProofs.fteik2d_fixed_stays", "once an extra sweep changes nothing, every larger nsweep returns the same grid"),
+            ("fixed_point_stays_3d", "Solve3dProofs.fteik3d_fixed_stays", "3D"),
+            ("converges_binary64_2d", "Solve2dProofs.fteik2d_converges", "binary64: after finitely many sweeps further sweeps leave the whole grid bit-identical - for every input, no NaN-freeness or domain hypothesis (rank-sum argument on the floats)"),
+            ("converges_binary64_3d", "Solve3dProofs.fteik3d_converges", "3D"),
+        ],
+        "examples": ["Example C07_okT_inhabited : Sweep2dProofs.okT 2 2 (full [2; 2] 1%float).", "Proof. exact FloatInstances.okT_inhabited. Qed.", ""],
+    },
+    "C03": {
+        "title": "Solver total and sane: what is proved about the generated solver for all inputs (raise contract, shapes); finite / non-negative / bounded / zero-only-at-source are examined on the implementation",
+        "header": HDR_G.format(imports="From FT.proofs Require Import Sweep2dProofs Sweep3dProofs Solve2dProofs Solve3dProofs."),
+        "theorems": [
+            ("solve2d_raises_iff_source_outside", "Solve2dProofs.fteik2d_raises_iff", "the 2D solver raises ValueError exactly when the code's own domain test fails (comparisons as written: a NaN coordinate fails it) and otherwise returns; every numeric instance"),
+            ("solve3d_raises_iff_source_outside", "Solve3dProofs.fteik3d_raises_iff", "3D"),
+            ("initial_grid_shape_2d", "Solve2dProofs.fteik2d_init_okT", "the work grid has one more node than the model has cells along each axis and is well formed, through the whole source initialisation"),
+            ("initial_grid_shape_3d", "Solve3dProofs.fteik3d_init_okT", "3D"),
+            ("result_grid_shape_2d", "Solve2dProofs.fteik2d_monotone_in_nsweep_le", "hence every returned traveltime grid has that shape (okT conclusions) and later sweeps only lower it"),
+        ],
+        "examples": [],
+    },
+    "C13": {
+        "title": "Invalid requests are reported by raising, identically for single and list calls (model: gen/Fteik2d.v, gen/Fteik3d.v; ray kernels: see C10)",
+        "header": HDR_G.format(imports="From FT.proofs Require Import Solve2dProofs Solve3dProofs VectorizedProofs."),
+        "theorems": [
+            ("single_solve2d_raises_iff_outside", "Solve2dProofs.fteik2d_raises_iff", "single solve: ValueError iff the source fails the domain test; otherwise it returns (no valid request raises)"),
+            ("single_solve3d_raises_iff_outside", "Solve3dProofs.fteik3d_raises_iff", "3D"),
+            ("list_solve2d_spec", "VectorizedProofs.fteik2d_vectorized_spec", "list solve = validation of every source in order, then the single solver mapped over the sources: no exception is raised from inside the parallel loop"),
+            ("list_solve3d_spec", "VectorizedProofs.fteik3d_vectorized_spec", "3D"),
+            ("list_solve2d_raises_if_some_source_outside", "VectorizedProofs.solve2d_list_raises_iff_some_source_outside", "an outside source at any position of the list makes the list call raise ValueError"),
+            ("list_solve2d_returns_map_of_singles", "VectorizedProofs.solve2d_list_is_map_of_singles", "and when every source is inside the list call returns the single results, in order"),
         ],
         "examples": [],
     },
